@@ -407,9 +407,96 @@ theorem C13_room (P N : Nat) (hN : N > 0) (hPN : N ≤ P) : N * averageLoad P N 
     rw [Nat.mul_add]; omega
   exact Nat.le_trans h2 (Nat.mul_le_mul_left N h1)
 
+/-! ## left-over data reaches every member (fix aa5aa21) -/
+
+theorem mem_removeFirst_of_ne (x o : Mem) (l : List Mem) (h : o ∈ l) (hne : o.id ≠ x.id) : o ∈ removeFirst x l := by
+  induction l with
+  | nil => cases h
+  | cons a r ih =>
+    simp only [removeFirst]
+    split
+    · rename_i e
+      rcases List.mem_cons.mp h with h | h
+      · subst h; exact absurd (by simpa using e) hne
+      · exact h
+    · rcases List.mem_cons.mp h with h | h
+      · subst h; exact List.mem_cons_self
+      · exact List.mem_cons_of_mem _ (ih h)
+
+theorem moveToEnd_keeps_id (l : List Mem) (x o : Mem) (h : o ∈ l) : ∃ o' ∈ moveToEnd l x, o'.id = o.id := by
+  by_cases e : o.id = x.id
+  · refine ⟨x, ?_, e.symm⟩
+    unfold moveToEnd; split <;> simp
+  · refine ⟨o, ?_, rfl⟩
+    unfold moveToEnd
+    split
+    · exact List.mem_append_left _ (mem_removeFirst_of_ne x o l h e)
+    · exact List.mem_append_left _ h
+
+theorem distributePrimary_keeps_holder (live : List Mem) (count : Mem → Option Nat) (owners : List Mem) (ro o : Mem)
+    (ho : o ∈ owners) (hl : alive live o = true) (hc : count o ≠ some 0) :
+    ∃ o' ∈ distributePrimary live count owners ro, o'.id = o.id := by
+  unfold distributePrimary
+  split
+  · rename_i e; subst e; cases ho
+  · apply moveToEnd_keeps_id
+    simp only [pruneEmpty, pruneDead, List.mem_filter]
+    exact ⟨⟨ho, hl⟩, by simpa using hc⟩
+
+theorem foldl_ensure_mono (rs l : List Mem) (o : Mem) (h : o ∈ l) : o ∈ rs.foldl ensureOwnership l := by
+  induction rs generalizing l with
+  | nil => exact h
+  | cons r rest ih => exact ih _ ((C13_leftover l r).2.1 o h)
+
+theorem foldl_ensure_has (rs l : List Mem) (m : Mem) (h : m ∈ rs) : ∃ o ∈ rs.foldl ensureOwnership l, o.id = m.id := by
+  induction rs generalizing l with
+  | nil => cases h
+  | cons r rest ih =>
+    rcases List.mem_cons.mp h with h | h
+    · subst h
+      obtain ⟨o, ho, e⟩ := (C13_leftover l m).1
+      exact ⟨o, foldl_ensure_mono rest _ o ho, e⟩
+    · exact ih _ h
+
+theorem foldl_ensure_mem (rs l : List Mem) (o : Mem) (h : o ∈ rs.foldl ensureOwnership l) : o ∈ l ∨ o ∈ rs := by
+  induction rs generalizing l with
+  | nil => exact Or.inl h
+  | cons r rest ih =>
+    rcases ih _ h with h | h
+    · unfold ensureOwnership at h
+      split at h
+      · exact Or.inl h
+      · rcases List.mem_cons.mp h with h | h
+        · exact Or.inr (h ▸ List.mem_cons_self)
+        · exact Or.inl h
+    · exact Or.inr (List.mem_cons_of_mem _ h)
+
+/-- **C13 / C03 (left-over data is listed everywhere).**  For every previous owners list, member list, ring owner and
+    both rounds of key-count answers: a member that reports left-over data for the partition when it receives the
+    table - it stored a key for it while the table was being computed - and that is still that live member holding
+    data when the coordinator asks again, is on the owners list of the LAST push of this update: every member, not
+    only the coordinator, knows where that data lives when `updateRouting` returns. -/
+theorem C13_leftover_pushed (live : List Mem) (count1 count2 : Mem → Option Nat) (coordOwners : List Mem) (ro : Mem)
+    (reporters : List Mem) (m : Mem) (hm : m ∈ reporters)
+    (hok : ∀ o, o.id = m.id → alive live o = true ∧ count2 o ≠ some 0) :
+    ∃ o ∈ updateRoutingPart live count1 count2 coordOwners ro reporters, o.id = m.id := by
+  obtain ⟨o, ho, e⟩ := foldl_ensure_has reporters (distributePrimary live count1 coordOwners ro) m hm
+  unfold updateRoutingPart
+  simp only
+  split
+  · rename_i h; rw [h] at ho; exact ⟨o, ho, e⟩
+  · obtain ⟨o', ho', e'⟩ := distributePrimary_keeps_holder live count2 _ ro o ho (hok o e).1 (hok o e).2
+    exact ⟨o', ho', e'.trans e⟩
+
+/-- nothing is pushed twice when no report added an owner -/
+theorem C13_single_push_when_nothing_reported (live : List Mem) (count1 count2 : Mem → Option Nat) (coordOwners : List Mem) (ro : Mem) :
+    updateRoutingPart live count1 count2 coordOwners ro [] = distributePrimary live count1 coordOwners ro := by
+  simp [updateRoutingPart]
+
 /-- the shapes the model follows, regenerated from the source on every run -/
 theorem facts_tie : Facts.distribute_prunes_then_appends_ring_owners = true ∧
-    Facts.only_oldest_member_computes_and_receivers_verify_sender = true := by decide
+    Facts.only_oldest_member_computes_and_receivers_verify_sender = true ∧
+    Facts.leftover_report_is_pushed_again = true := by decide
 
 /-! Non-vacuity: three live members; member (1,11) re-joined as (1,12); previous owners [(1,11), (0,10)],
     member 0 reports 5 keys; the ring picks member 2. -/
@@ -421,6 +508,13 @@ example : distributeBackups live0 (fun _ => some 3) [⟨0, 10⟩, ⟨1, 11⟩] (
 example : distributeBackups live0 (fun _ => some 3) [⟨2, 13⟩, ⟨1, 12⟩] (some [⟨0, 10⟩, ⟨2, 13⟩])
     = [⟨1, 12⟩, ⟨2, 13⟩] := by decide
 example : RingOK live0 2 ⟨2, 13⟩ [⟨2, 13⟩, ⟨0, 10⟩] := ⟨rfl, by decide, by decide, by decide⟩
+/-! F46 (fixed aa5aa21): member 0 owned the partition, it was empty when the coordinator asked; member 1 joins and the
+    ring gives it the partition; member 0 stores a key in between and reports it.  The first push does not list member
+    0 (what every member but the coordinator held until the next periodic push, before the repair); the update as a
+    whole does. -/
+example : distributePrimary [⟨0, 10⟩, ⟨1, 12⟩] (fun _ => some 0) [⟨0, 10⟩] ⟨1, 12⟩ = [⟨1, 12⟩] := by decide
+example : updateRoutingPart [⟨0, 10⟩, ⟨1, 12⟩] (fun _ => some 0) (fun m => if m.name = 0 then some 1 else some 0) [⟨0, 10⟩] ⟨1, 12⟩ [⟨0, 10⟩]
+    = [⟨0, 10⟩, ⟨1, 12⟩] := by decide
 example : coordinator [(⟨0, 10⟩, 5), (⟨1, 12⟩, 3), (⟨2, 13⟩, 9)] = some ⟨1, 12⟩ := by decide
 
 end Olric.C13
